@@ -16,7 +16,7 @@ def run_repo_tests() -> int:
     p = subprocess.run(
         [sys.executable, '-m', 'pytest', '-q', '-p', 'pysymex.pytest_plugin',
          '-p', 'no:cacheprovider', '--continue-on-collection-errors', '--timeout=900'],
-        cwd='/repo', env=env, capture_output=True, text=True)
+        cwd=os.environ.get('VERIF_REPO') or '/repo', env=env, capture_output=True, text=True)
     tail = p.stdout.strip().splitlines()[-1] if p.stdout.strip() else ''
     m = re.search(r'(\d+) passed', tail)
     failed = re.search(r'(\d+) failed', tail)
